@@ -9,19 +9,6 @@ import (
 	symx "com.tuntun.rangers/node/src/zz_symx"
 )
 
-var (
-	c01Src = "0x00000000000000000000000000000000000000a1"
-	c01B   = "0x00000000000000000000000000000000000000b2"
-	c01C   = "0x00000000000000000000000000000000000000c3"
-)
-
-func c01State() *account.AccountDB {
-	st := vsNewState()
-	st.SetBalance(common.HexToAddress(c01Src), vsTokens(50))
-	st.SetBalance(common.HexToAddress(c01B), vsTokens(5))
-	return st
-}
-
 func c01Run(targets map[string]types.TransferData) (string, bool, [3]*big.Int) {
 	st := c01State()
 	snap := st.Snapshot()
